@@ -25,7 +25,8 @@ Oracle    (1) spans contiguous from 0 to len(src), non-empty;
               regex) which is stock except that a BLOCK tag ends at the first `%}` outside a
               quoted string;
           (6) TemplateSyntaxError only where the reference finds an unbalanced quote / no
-              closing `%}`; any other exception class, or no answer within 2 s, is a violation.
+              closing `%}`; any other exception class, or no answer within 2 s of CPU time (a
+              process CPU timer, so that a loaded machine cannot fake a hang), is a violation.
           The reference is itself validated against stock on every quote-free source
           (disagreement = harness error, exit 2).
           Part B: Template(src + '{% bogus %}') must fail exactly like Django's Parser run on
@@ -240,7 +241,8 @@ def invariant_problem(src: str, toks):
     return None
 
 
-HANG_SECONDS = 2.0
+HANG_SECONDS = 2.0  # CPU time of the executing process (ITIMER_PROF): independent of the load on the machine
+HANG_WALL_SECONDS = 300.0  # wall-clock backstop for a stall that burns no CPU
 MAX_HANGS = 2
 
 
@@ -250,6 +252,20 @@ class _Hang(BaseException):
 
 def _on_alarm(signum, frame):
     raise _Hang()
+
+
+def _arm():
+    """The lexer is pure computation, so a hang burns CPU: the verdict timer counts the CPU time of this
+    process.  (A 2 s wall-clock timer reported 5 false hangs in 41 M executions on a machine with load 150.)"""
+    signal.signal(signal.SIGPROF, _on_alarm)
+    signal.signal(signal.SIGALRM, _on_alarm)
+    signal.setitimer(signal.ITIMER_REAL, HANG_WALL_SECONDS)
+    signal.setitimer(signal.ITIMER_PROF, HANG_SECONDS)
+
+
+def _disarm():
+    signal.setitimer(signal.ITIMER_PROF, 0)
+    signal.setitimer(signal.ITIMER_REAL, 0)
 
 
 _TAG_RE = {}
@@ -275,20 +291,19 @@ def lex_case(src: str, dotall: bool):
 
     info = {"cls": "", "obs": None, "ext": 0}
     impl = err = None
-    signal.signal(signal.SIGALRM, _on_alarm)
-    signal.setitimer(signal.ITIMER_REAL, HANG_SECONDS)
+    _arm()
     try:
         impl = _tup(parse_template(src))
     except TemplateSyntaxError as e:
         err = e
     except _Hang:
         info["cls"] = "hang"
-        return ("hang", f"parse_template did not return within {HANG_SECONDS} s"), info
+        return ("hang", f"parse_template did not return within {HANG_SECONDS} s of CPU time"), info
     except Exception as e:  # clause 6
         info["cls"] = "exception"
         return ("exception", f"parse_template raised {type(e).__name__}: {e}"), info
     finally:
-        signal.setitimer(signal.ITIMER_REAL, 0)
+        _disarm()
     stock = _tup(DebugLexer(src).tokenize())
     quoted = False
     for ty, contents, _a, _b, _l in stock:
@@ -408,13 +423,12 @@ def route_case(src: str, dotall: bool, tag_name: str):
     else:
         info["cls"] = "agnostic"
     for dbg_flag in (True, False):
-        signal.signal(signal.SIGALRM, _on_alarm)
-        signal.setitimer(signal.ITIMER_REAL, HANG_SECONDS)
+        _arm()
         try:
             Template(src, engine=engines[dbg_flag])
             got = ("ok",)
         except _Hang:
-            return ("route-hang", f"Template(src) did not return within {HANG_SECONDS} s"), info
+            return ("route-hang", f"Template(src) did not return within {HANG_SECONDS} s of CPU time"), info
         except Exception as e:
             tok = getattr(e, "token", None)
             got = (_exc_kind(e), str(e), (tok.token_type.name, tok.contents, tok.position, tok.lineno) if tok is not None else None,
@@ -423,7 +437,7 @@ def route_case(src: str, dotall: bool, tag_name: str):
                 # not raised by a tag's compile function (Parser.error() would have attached the token): the lexer crashed
                 return ("route-exception", f"Template(src) raised {type(e).__name__}: {e}"), info
         finally:
-            signal.setitimer(signal.ITIMER_REAL, 0)
+            _disarm()
         info["obs"] = got[:3]
         if agnostic:
             continue
